@@ -158,6 +158,81 @@ fn decode_files(out: &mut Out) {
     }
 }
 
+/// LH5 stream that stores every byte as itself: each block declares a code tree in which all 256 literals have
+/// 8-bit codes (the length tree consists of the single symbol "length 8") and no match codes
+fn lh5_stored(data: &[u8]) -> Vec<u8> {
+    let mut out: Vec<u8> = vec![];
+    let (mut acc, mut bits) = (0u64, 0u32);
+    let mut put = |v: u32, n: u32, out: &mut Vec<u8>| {
+        acc = (acc << n) | v as u64;
+        bits += n;
+        while bits >= 8 {
+            bits -= 8;
+            out.push((acc >> bits) as u8);
+        }
+        acc &= (1u64 << bits) - 1;
+    };
+    for block in data.chunks(0x8000) {
+        put(block.len() as u32, 16, &mut out);
+        put(0, 5, &mut out);
+        put(10, 5, &mut out);
+        put(256, 9, &mut out);
+        put(0, 4, &mut out);
+        put(0, 4, &mut out);
+        for b in block {
+            put(*b as u32, 8, &mut out);
+        }
+    }
+    put(0, 7, &mut out);
+    out.extend([0u8; 8]);
+    out
+}
+
+/// the register-major file contents of generated logs: a function of the position that the spec knows
+fn raw_gen(seed: u64, j: u64) -> u8 {
+    // mixed radix over primes: no period below 14 million positions (a power-of-two period would make logs of
+    // 65536 frames look right when rows are confused)
+    (((j % 251) * 7 + ((j / 251) % 241) * 13 + ((j / 60491) % 239) * 29 + seed) % 256) as u8
+}
+
+/// decode of generated files of any frame count (beyond the 16-bit range too): sampled positions of the
+/// loader's frame-major result
+fn decode_generated(out: &mut Out, r: &mut Rng) {
+    for frames in [1u64, 2, 3, 14, 293, 4097, 32768, 65535, 65536, 65537, 70000, 131077] {
+        let seed = r.below(200);
+        let raw: Vec<u8> = (0..frames * 14).map(|j| raw_gen(seed, j)).collect();
+        let mut file: Vec<u8> = b"ay".to_vec();
+        file.push(1);
+        file.extend(0u16.to_le_bytes());
+        file.extend(1_773_400u32.to_le_bytes());
+        file.push(50);
+        file.extend(2024u16.to_le_bytes());
+        file.extend((raw.len() as u32).to_le_bytes());
+        file.extend(b"t\0a\0f\0k\0c\0");
+        file.extend(lh5_stored(&raw));
+        match guarded(|| Vtx::load(std::io::Cursor::new(file))) {
+            Ok(Ok(v)) => {
+                let n = v.frame_data.len() as u64;
+                let mut samples: Vec<Value> = vec![];
+                for k in 0..600u64 {
+                    // the first and last positions, then random ones
+                    let i = match k {
+                        0..=29 => k,
+                        30..=59 => n.saturating_sub(k - 29),
+                        _ => r.below(n.max(1)),
+                    };
+                    if i < n {
+                        samples.push(json!([i + 1, v.frame_data[i as usize]]));
+                    }
+                }
+                out.ev(json!({"ev":"decodegen","frames":frames,"seed":seed,"len":n,"outcome":"ok","samples":samples}));
+            }
+            Ok(Err(e)) => out.ev(json!({"ev":"decodegen","frames":frames,"seed":seed,"len":0,"outcome":format!("err: {e:?}"),"samples":[]})),
+            Err(p) => out.ev(json!({"ev":"decodegen","frames":frames,"seed":seed,"len":0,"outcome":format!("panic: {p}"),"samples":[]})),
+        }
+    }
+}
+
 pub fn run(args: &Args) {
     let mut out = Out::create(&args.str("out", "-"));
     let seed = args.num("seed", 1);
@@ -167,6 +242,7 @@ pub fn run(args: &Args) {
     real_chunkings(&mut out, &mut r, args.num("real", 0));
     if args.num("decode", 0) != 0 {
         decode_files(&mut out);
+        decode_generated(&mut out, &mut r);
     }
     let n = out.finish();
     eprintln!("vtx: {n} events");
